@@ -43,6 +43,9 @@ public :
     // -----------------------------------------------------------------------
     void lock();
     void unlock();
+#ifdef XERCES_VERIF_HOOKS
+    void* verifHandle() const { return fHandle; }
+#endif
 
 
 private :
